@@ -34,7 +34,7 @@ Pairs == <<
   <<"L.1", "audio">>, <<"L.2", "image">>, <<"L.2", "audio">>, <<"M.1", "image">>, <<"M.1", "audio">> >>
 NCore == 13
 NPairs == IF Core THEN NCore ELSE Len(Pairs)
-Questions == {"q1", "q2", "s1", "s2", "s3"}
+Questions == {"q1", "q2", "s1", "s2", "s3"}   \* (s4, a randomized select on list L, always carries an unsuffixed label)
 BasePat(p) == IF p[2] = "label" THEN {""} ELSE {}
 Patterns == SUBSET Langs
 
